@@ -20,39 +20,39 @@ CHECKS["C03"] = ("§5 C03", "All feasible paths of the real matching code (locat
     "matching tracepoint acts exactly once with every action kind, nothing else happens. Line numbers unbounded where the code only compares them; "
     "paths as free symbolic strings <= 4 chars; method tracepoints against plain and qualified code-object names; a tracepoint on the lines after one that leaves deferred work (span / capture) still acts exactly once.")
 CHECKS["C10"] = ("§5 C10", "All feasible paths of the real condition/expression code for 3 hits with symbolic per-hit truth, unbounded fire_count and "
-    "9 condition flavours (failing ones raise exceptions with a free symbolic message); name visibility of 9 names (local, host global, builtin, agent-only) "
+    "11 condition flavours (failing ones raise exceptions with a free symbolic message; two fail on some hits and hold on others); name visibility of 9 names (local, host global, builtin, agent-only) "
     "and 4 expressions with significant white space at the 4 evaluation sites (watch, log field, metric label, condition) against Python's own eval in the frame scope; failing-expression isolation.")
 CHECKS["C11"] = ("§5 C11", "build_trigger decided over FREE symbolic strings for stage/snapshot/span/method_name/log_msg/condition against a reference table "
     "(location kind, exact action set, per-action id/condition/limits/watches); then the tracepoint is installed through convert_response or add_custom and the "
     "matching event driven through the real handler: observed effects equal the table; per-action condition and fire budget; 3-tracepoint responses with "
-    "same-location and uninterpretable members; the table is decided after an earlier tracepoint with explicit non-default arguments was built (history independence).")
+    "same-location and uninterpretable members; the table is decided after an earlier tracepoint with explicit non-default arguments was built (history independence); definitions sharing a name stay separate.")
 CHECKS["C13"] = ("§5 C13", "Every history of 3 (quick) / 4-5 (thorough) operations over register (two lines, with/without metrics), unregister by handle "
     "(repeats allowed) and service updates, run through the real Deep.register_tracepoint / TracepointRegistration / TracepointConfigService / TriggerHandler: "
-    "after every operation the installed set equals a multiset model, and the same set acts when the lines are reached. Deep is built through its real constructor; registrations with identical arguments are separate registrations. Histories are enumerated by the solver (finite op alphabet).")
+    "after every operation the installed set equals a multiset model, and the same set acts when the lines are reached. Deep is built through its real constructor; registrations with identical arguments are separate registrations; five registrations on one line. Histories are enumerated by the solver (finite op alphabet).")
 CHECKS["C16"] = ("§5 C16", "Every template of 0..2 segments (3 thorough; 4 in slices) over a 12-kind segment alphabet (literals with %/:/!/non-ASCII, doubled braces, "
     "7 field expressions incl. failing ones) driven through the real handler on log-only and snapshot+log tracepoints, 1-3 hits: message text equals an independent "
-    "renderer, one logger call per permitted hit labelled (tracepoint id, context id) in their places, snapshot.log_msg and LOG-source watches agree; the built-in PythonPlugin logger emits exactly that text through logging; every LOG watch resolves to its own field's value (temporaries of equal size).")
+    "renderer, one logger call per permitted hit labelled (tracepoint id, context id) in their places, snapshot.log_msg and LOG-source watches agree; the built-in PythonPlugin logger emits exactly that text through logging; every LOG watch resolves to its own field's value (temporaries of equal size); failing fields render the exception's own text (KeyError, OSError); the message stays complete when the variable budget runs out.")
 CHECKS["C17"] = ("§5 C17", "Metric tracepoints delivered as real protobuf definitions through convert_response and driven through the real handler: per permitted hit "
     "and per processor one call per definition via the operation named by its type, with name/namespace(default deep)/help/unit, labels (static/expression/failing), "
-    "value = expression as number or 1; no processor => nothing reported and no budget used; values on which float() overflows or raises do not disturb the next definition; expressions that consume application state run once per definition and hit whatever the number of processors; definitions sharing a name are separate metrics. Selector spaces enumerated by the solver.")
+    "value = expression as number or 1; no processor => nothing reported and no budget used; values on which float() overflows or raises do not disturb the next definition; expressions that consume application state run once per definition and hit whatever the number of processors; definitions sharing a name are separate metrics; labels are reported also when the value expression fails. Selector spaces enumerated by the solver.")
 CHECKS["C18"] = ("§5 C18", "Inductive step of the real BoundedAttributes (one of 7 operations from any of 16 ordered states, symbolic drop counter, free symbolic string "
     "values against the value limit, 5 capacities, frozen/not) against a reference model - covers operation histories of any length over the modelled key set; value "
     "cleaning over 17 value shapes with symbolic elements; construction/eviction; Resource.merge chains (precedence also for '' / 0 / False values, schema rule, operands unchanged); Resource.create + "
     "detector + Deep.start plugin merge under a controlled environment, and the resource carried by the real PollRequest.")
 CHECKS["C19"] = ("§5 C19", "The real ConfigService lookup chain over 6 keys x 10 code-value kinds (incl. partial, bound method, built-in, callable object) x environment presence (deep.config re-executed against a fake "
     "environment); application-frame classification and short path over FREE symbolic file names and include/exclude prefixes against a reference (exclusion wins, prefix "
-    "semantics), after another configuration object was asked about the same file; code-vs-environment equivalence of every documented key observed through the real consumers (LongPoll timer construction, GRPCService channel choice, "
+    "semantics), after another configuration object was asked about the same file; list settings spelt with blanks / trailing commas; code-vs-environment equivalence of every documented key observed through the real consumers (LongPoll timer construction, GRPCService channel choice, "
     "is_app_frame, AuthProvider, deep.start).")
 CHECKS["C05"] = ("§5 C05", "Snapshots of 9 graph templates collected by the real FrameCollector/VariableSetProcessor/BFS under SYMBOLIC limits (max_variables, "
     "max_collection_size, max_var_depth unbounded; the solver partitions them against the graph; max_string_length 0..8): budget, string cut + truncated flag, per-collection "
     "cap, depth cap, truthful content, breadth-first spending of the budget (level order against an independent BFS of the real objects), locals never crowded out, everything "
     "within limits collected; two declaration orders (four thorough); the string kernel over 4 alphabets (NUL, control, non-BMP).")
-CHECKS["C06"] = ("§5 C06", "42 kinds of awkward values (no __dict__, non-str keys, iterators/generators, dunder methods raising any of 6 exception classes incl. "
+CHECKS["C06"] = ("§5 C06", "43 kinds of awkward values (no __dict__, non-str keys, iterators/generators, dunder methods raising any of 6 exception classes incl. "
     "BaseException subclasses, invalid UTF-8 text) at 6 positions (local, local named self, list element, dict value, attribute, watch-only), 1-3 snapshot tracepoints on the line, through the "
     "real handler/collector and the real protobuf conversion: one converting snapshot per tracepoint, every other variable intact (independent reader), the value has an entry "
     "with its real type name, tables closed with no foreign entries, no two snapshots of one event share a table; a tracepoint failing for a reason of its own (7 kinds) does not cost its siblings on the line their snapshots. Selector space enumerated by the solver.")
 CHECKS["C02"] = ("§5 C02", "Snapshots produced by the real handler/collector for stacks of 1-3 frames (files inside/outside app root, include and exclude prefixes; "
-    "self absent/instance/None), top-frame locals from graph templates (nested, shared, cyclic, objects with private attributes, exceptions), 5 frame_type settings, "
+    "self absent/instance/None), top-frame locals from graph templates (nested, shared, cyclic, objects with private attributes, exceptions, tuple subclasses / structseq, unorderable dict keys, a range; every child the caps allow is listed), 5 frame_type settings, "
     "0-2 watches, line and method tracepoints, compared field by field with an independent reader of the same objects (type names, text, children, de-mangled names, "
     "identity), plus tracepoint identity/arguments, timestamp and resource. Selector space enumerated by the solver.")
 CHECKS["C07"] = ("§5 C07", "Snapshots of graph templates with sharing and cycles plus two watches (frame locals, fresh containers of existing objects, fresh scalars, "
@@ -64,7 +64,7 @@ CHECKS["C15"] = ("§5 C15", "Well-formed sys.settrace event streams generated fr
     "threads with fresh or reused ident. Streams enumerated by the solver; three recorded findings are excluded by predicate.")
 CHECKS["C14"] = ("§5 C14", "Histories of 2-3 (thorough 3-4) start/shutdown calls on the real Deep / TriggerHandler / LongPoll with recording stand-ins for sys, threading, "
     "the timer, the poll stub, grpc, plugins and the task handler: hooks (sys.settrace, threading.settrace, settrace_all_threads incl. the trace function of an already-running thread) installed once per start and restored exactly (untouched under 7 NO_TRACE spellings), one running timer while "
-    "started and none after, delivery drained and every plugin shut down exactly once per shutdown under any failure subset, started flag truthful; the real LongPoll/RepeatedTimer start one daemon thread per start and set the stop event before joining it. Enumerated by the solver.")
+    "started and none after, delivery drained and every plugin shut down exactly once per shutdown under any failure subset, started flag truthful; plugins are loaded once per effective start; the real LongPoll/RepeatedTimer start one daemon thread per start and set the stop event before joining it. Enumerated by the solver.")
 CHECKS["C20"] = ("§5 C20", "The real load_plugins over three custom plugin classes (importable / missing / constructor raises, activation by 8 configuration values incl. bools on which is_active() itself fails, "
     "UNBOUNDED symbolic order values incl. ties) against 'importable and constructible and active, stably sorted'; and fault isolation: two plugins of each of 5 types, one or both "
     "failing (raising, or answering with the wrong kind of object) in each of 7 callbacks (resource, decorate, log, create_span, close, metric, shutdown) through the real Deep.start / handler / Deep.shutdown - the healthy "
@@ -72,7 +72,7 @@ CHECKS["C20"] = ("§5 C20", "The real load_plugins over three custom plugin clas
 CHECKS["C01"] = ("§5 C01", "Reduction of host transparency to the trace-function contract (may affect the host only by raising, by its return value, or by mutating "
     "reachable objects) checked on the real handler: 10 tracepoint configurations x scripts of 3-4 events x hostile values (33 kinds, 6 exception classes incl. BaseException "
     "subclasses) in locals / return value / exception argument, and fault injection at a SYMBOLIC call index among the agent's calls into its sub-components and environment "
-    "(the solver partitions the index over the calls actually made), both fault classes: nothing is raised, tracing stays on, locals untouched, iterators not advanced, the process-wide random generator not drawn from, and a "
+    "(the solver partitions the index over the calls actually made), both fault classes: nothing is raised, tracing stays on, locals untouched, iterators not advanced, the process-wide random generator not drawn from, interpreter-wide settings (gc, recursion limit, sys.path, environ, ...) unchanged also for a host that disabled the collector, and a "
     "later benign run over the same tracepoints still produces every effect (no poisoned per-thread state); no agent-level container of deep.* grows with the number of hits.")
 CHECKS["C08"] = ("§5 C08", "Field-by-field equality (walking the real protobuf descriptors, so a new or dropped field is noticed) between harness-assembled "
     "snapshots (0-2 frames, 0-3 table entries with children, good/error watches from 4 sources, 12 attribute value shapes, optional fields present/absent, boundary numeric "
@@ -81,7 +81,7 @@ CHECKS["C08"] = ("§5 C08", "Field-by-field equality (walking the real protobuf 
 CHECKS["C09"] = ("§5 C09", "The real TaskHandler.submit_task (with its completion callback), flush, __check_open and PushService.push_snapshot, statement-stepped "
     "from the current source and run as threads (application thread + 2 pool workers on a simulated FIFO executor) under a context-bounded scheduler whose pre-emption point "
     "is a SYMBOLIC step index (the solver partitions it over the steps actually taken): every accepted task runs exactly once on a worker, failures are contained, flush "
-    "returns normally only after every earlier task finished, submissions after flush are refused visibly, nothing stays pending; two application threads (push + flush, flush + flush) with one or two pre-emptions; three pushes with a task completing between two of them.")
+    "returns normally only after every earlier task finished, submissions after flush are refused visibly, nothing stays pending; two application threads (push + flush, flush + flush) with one or two pre-emptions; three pushes with a task completing between two of them; the real _push_task hands every snapshot to the service exactly once whatever the send does.")
 CHECKS["C12"] = ("§5 C12", "LongPoll.poll, TracepointConfigService (update_new_config, __trigger_update, update_listeners, add_custom, remove_custom) and "
     "TaskHandler.submit_task statement-stepped from the current source and run as driver thread + 2 pool workers under a context-bounded scheduler with a SYMBOLIC "
     "pre-emption step: for histories of 2-3 (thorough 3-4) operations over UPDATE x3 / NO_CHANGE / failing / unintelligible poll, register, unregister, at quiescence the "
